@@ -30,7 +30,7 @@ def _shapes(tier):
                 for pickup in (0, 1):
                     for final in (0, 1):
                         for ks in (1, 2):
-                            if tier == 'quick' and ks == 2 and M == 3:
+                            if ks == 2 and M >= (3 if tier == 'quick' else 4):
                                 continue
                             out.append((M, tuple(lens), opening, pickup, final, ks, 0))
     return out
